@@ -299,11 +299,12 @@ Proof.
   destruct (ev_binds_abs cp h0 cvm (xf_binds F) en h mh Hinv G Hos Hw HF) as (G1 & GM1 & E1).
   destruct (ev_binds cp en h mh (xf_binds F)) as [[h1 mh1] r]. cbn [fst snd] in *. rewrite <- E1.
   destruct r as [[cs zs]|]; [|cbn [fst snd]; split; [reflexivity|]; split; [exact G1|exact GM1]].
-  assert (Hf : func_ok h0 (mkF cs zs (xf_body F))).
+  destruct (xf_body F) as [b|parts]; [|cbn [fst snd]; split; [reflexivity|]; split; [exact G1|exact GM1]].
+  assert (Hf : func_ok h0 (mkF cs zs b)).
   { unfold func_ok. cbn [f_cs]. symmetry in E1. apply (pm_binds_scope _ _ _ _ _ _ _ E1). exact Hc. }
-  destruct (outcome_content_only_lemma cp h0 (mkF cs zs (xf_body F)) args j Hinv Hf h1 (good_trans _ _ _ G G1)) as [A B].
-  destruct (run_iso h1 (sc_eval cp (mkF cs zs (xf_body F)) args j)) as [h2 o]. cbn [fst snd] in *.
-  split; [exact A|]. split; [eapply good_trans; eauto|exact GM1].
+  destruct (outcome_content_only_lemma cp h0 (mkF cs zs b) args j Hinv Hf h1 (good_trans _ _ _ G G1)) as [A B].
+  destruct (run_iso h1 (sc_eval cp (mkF cs zs b) args j)) as [h2 o]. cbn [fst snd] in *.
+  cbn [f_body] in A. split; [rewrite A; reflexivity|]. split; [eapply good_trans; eauto|exact GM1].
 Qed.
 
 (* ------------------------------------------------------------------ histories *)
@@ -321,8 +322,8 @@ Proof.
   { intros h' mh' G GM. eapply Forall_impl; [|exact Hfs]. intros F. apply xfunc_ok_mono; auto. }
   destruct e as [p|k args j|ops|ops]; cbn [xrun_event].
   - unfold xgenerate.
-    destruct (yields_run_iso 0 0 _ _ _ _ (generate_yields 0 0 cp (mkP (xp_defs p) (xp_body p)) (xg_heap g) Hinv) Hinv) as [[G _] Hq].
-    destruct (run_iso (xg_heap g) (sc_generate cp (mkP (xp_defs p) (xp_body p)))) as [h1 r]. cbn [fst snd] in *.
+    destruct (yields_run_iso 0 0 _ _ _ _ (generate_yields 0 0 cp (mkP (xp_defs p) (BZ ZThrow)) (xg_heap g) Hinv) Hinv) as [[G _] Hq].
+    destruct (run_iso (xg_heap g) (sc_generate cp (mkP (xp_defs p) (BZ ZThrow)))) as [h1 r]. cbn [fst snd] in *.
     destruct r as [F|].
     + unfold generated_ok in Hq. cbn [p_defs p_body] in Hq.
       destruct (sp_defs (xp_defs p) [] []) as [[cv zs]|]; [|contradiction]. destruct Hq as (_ & _ & Hq).
